@@ -16,8 +16,19 @@ def run(ctx):
         raise vlib.Infra("negative control failed")
     out = ctx.vh("deps-replay", {"cases": cases}, timeout=20000)
     ctx.add_result(out)
+    # end to end: the workspaces with one pinned commit of C on disk, remote modules in a seeded cache directory, buf binary offline
+    import random
+    single = [c for c in res["emit"]["CASE"] if len(c["cCommits"]) == 1]
+    random.Random(ctx.seed).shuffle(single)
+    single = single[:500 if ctx.quick else 5000]
+    buf = ctx.build_buf()
+    n2 = ctx.vh("deps-cli", {"buf": buf, "cases": single[:40], "corrupt": True})
+    if not n2["violations"]:
+        raise vlib.Infra("negative control of the end-to-end stage failed")
+    ctx.add_result(ctx.vh("deps-cli", {"buf": buf, "cases": single}, timeout=20000), kind="cli")
     ctx.assumptions += [
+        "end to end: 500 (5000) seeded workspaces with one pinned commit of C materialised on disk (buf.yaml v2 with local modules and deps, buf.lock), remote modules stored with the real ModuleDataStore / CommitStore in a cache directory, the buf binary run offline: build of module A (error class by exit status), ls-files --include-imports = files of the built image, dep graph edges",
         "three module names, four files; remote modules are served by an in-process ModuleDataProvider/CommitProvider (creation time = commit id)",
         "when a cycle, an ambiguous path and a missing import coexist any error is accepted; otherwise the error class must match",
     ]
-    return vlib.finish(ctx, rule="every workspace of Workspace.tla: file-level import choices (incl. module cycles) x B local/remote/both x every non-empty ordered selection of 1..3 commits of C x duplicate provider x missing import; ModuleDeps of every module (set, direct flags, error class), ModuleSetToDAG edges, selected commit and local-over-remote precedence, ls-files closure = files of the built image; distinct = workspaces")
+    return vlib.finish(ctx, rule="every workspace of Workspace.tla: file-level import choices (incl. module cycles) x B local/remote/both x every non-empty ordered selection of 1..3 commits of C x duplicate provider x missing import; ModuleDeps of every module (set, direct flags, error class), ModuleSetToDAG edges, selected commit and local-over-remote precedence, ls-files closure = files of the built image; a seeded sample end to end through the buf binary (build, ls-files, dep graph) over a seeded module cache; distinct = workspaces")
